@@ -5,6 +5,7 @@
 //! implementation's canonical answers, one per line) and `<outdir>/<property>.stats.json`
 //! (input distribution, oracle results).
 mod alloc;
+mod c06;
 mod c09;
 mod c11;
 mod c12;
@@ -35,6 +36,7 @@ fn main() {
     }
     let mut out = util::Out::new();
     match prop {
+        "C06" => c06::run(&mut out, thorough, seed),
         "C09" => c09::run(&mut out, thorough, seed),
         "C11" => c11::run(&mut out, thorough, seed),
         "C12" => c12::run(&mut out, thorough, seed),
